@@ -191,6 +191,26 @@ func decoderEntry(d *gen.Decoder, c *decCase) func(b []byte) bool {
 		if cs, ok := v.(interface{ Size() int }); ok {
 			_ = cs.Size()
 		}
+		// the same entry point on a value that decoded something else before (a receive loop reusing its variable):
+		// shorter prefixes first and the input last, then the other way round
+		seen := map[int]bool{}
+		for _, k := range []int{1, 2, len(b) / 2, len(b) - 1} {
+			if k <= 0 || k >= len(b) || seen[k] {
+				continue
+			}
+			seen[k] = true
+			w, w2 := d.New(), d.New()
+			_ = d.Decode(w, c.Uplink, b[:k:k])
+			_ = d.Decode(w, c.Uplink, b)
+			_ = d.Decode(w2, c.Uplink, b)
+			_ = d.Decode(w2, c.Uplink, b[:k:k])
+			_ = d.Decode(w2, c.Uplink, b)
+			for _, x := range []any{w, w2} {
+				if m, ok := x.(interface{ MarshalBinary() ([]byte, error) }); ok {
+					_, _ = m.MarshalBinary()
+				}
+			}
+		}
 		return true
 	}
 }
@@ -664,7 +684,7 @@ func TestProp(t *testing.T) {
 		150000, 6000000, genPHY, checkDec)
 
 	evid.Rapid(r, t, "binary-decoders",
-		fmt.Sprintf("rapid: each of the %d exported types with UnmarshalBinary (frame parts, identifiers, CFList, MACCommand, the 29 MAC payloads, the Command/Commands wrappers and every payload of the four application-layer packages), both directions, lengths drawn from the lengths each type accepts (+-1) or 0..40, contents uniform / 0x00 / 0xFF, command wrappers steered to known CIDs and hostile mask bytes; the decoded value is then re-encoded, JSON-encoded and asked for its Size. Same oracle. Non-trivial: the decoder accepted the input.", len(gen.Decoders)),
+		fmt.Sprintf("rapid: each of the %d exported types with UnmarshalBinary (frame parts, identifiers, CFList, MACCommand, the 29 MAC payloads, the Command/Commands wrappers and every payload of the four application-layer packages), both directions, lengths drawn from the lengths each type accepts (+-1) or 0..40, contents uniform / 0x00 / 0xFF, command wrappers steered to known CIDs and hostile mask bytes; the decoded value is then re-encoded, JSON-encoded and asked for its Size; the same entry point is also run on values that decoded something else before (prefixes of the input first and the input last, and the other way round). Same oracle. Non-trivial: the decoder accepted the input.", len(gen.Decoders)),
 		300000, 12000000, genBin, checkDec)
 
 	evid.Rapid(r, t, "linear-growth",
